@@ -33,8 +33,9 @@ def total_mask(data, mask, cov):
 
 
 def work_array(data):
-    """Floating array the statistics are computed on (integers -> float32, as the library)."""
-    return data if data.dtype.kind == 'f' else data.astype(np.float32)
+    """Floating array the reference statistics are computed on: integer images are judged against the
+    float64 computation on the values they hold."""
+    return data if data.dtype.kind == 'f' else data.astype(np.float64)
 
 
 def box_vectors(dataf, tmask, box):
